@@ -23,6 +23,7 @@ func init() {
 		},
 		Assumptions: append([]string{"the tlv package analysed is /repo/tlv (its own module); the root module compiles against the tagged copy of it in the module cache"}, commonAssumptions...),
 		Engines:     "CODEC (trace agreement over all message types), REG, GUARD, BOUND, WHO",
+		TagMatrix:   [][]string{{"GOARCH=386"}},
 		Run:         runC10,
 	})
 }
